@@ -110,3 +110,23 @@ Example C09_nonvacuous_accepts : translate G0 100 good = OK KTree.
 Proof. vm_compute. reflexivity. Qed.
 Example C09_nonvacuous_refuses : translate G0 100 bad = Error ErrRuntime.
 Proof. vm_compute. reflexivity. Qed.
+
+(* ---------- the argument-count pre-pass of the executor (fix 109dd7d) ---------- *)
+(* func_adl's simplifier rebuilds Select / SelectMany / Where calls from their first two arguments, so an extra argument would
+   vanish from the generated code.  The executor checks the argument count first (KindModel.seq_arity_ok mirrors
+   executor._check_sequence_call_arguments; the two are compared on every generated query).  For EVERY expression context -
+   any depth, any operator, lambda bodies, call arguments, tuple / list / dict items - a sequence call with a wrong number of
+   arguments or with keyword arguments makes the pre-pass refuse the whole query. *)
+Theorem C09_extra_argument_refused_at_any_position :
+  forall (u : expr) (c : ctx), bad_seq_call u -> prepass (plug c u) = Error ErrValue.
+Proof. exact prepass_refuses_bad_call_anywhere. Qed.
+Print Assumptions C09_extra_argument_refused_at_any_position.
+Definition two_lambdas : expr :=
+  ECall (EName "Select") [jets; ELambda ["j"] (ECall (EAttr (EName "j") "pt") [] 0); ELambda ["j"] (ECall (EAttr (EName "j") "eta") [] 0)] 0.
+Example C09_prepass_nonvacuous :
+  prepass good = OK tt /\ bad_seq_call two_lambdas /\
+  prepass (ECall (EName "Select") [EKind event_kind; ELambda ["e"] (ETuple [EConst "int"; EBinOp "Add" (ECall (EName "Count") [two_lambdas] 0) (EConst "int")])] 0) = Error ErrValue.
+Proof.
+  split; [vm_compute; reflexivity|]. split; [|vm_compute; reflexivity].
+  unfold bad_seq_call, two_lambdas. eexists "Select", _, 0. split; [reflexivity|]. split; [reflexivity|]. left. cbn. discriminate.
+Qed.
